@@ -136,6 +136,10 @@ func c40Judge(s *orcStep, res *run.Result, p c40Pred) {
 		res.Inc("skipped_board_declared_without_map")
 		return
 	}
+	if orcWentHollow(s) {
+		res.Inc("skipped_board_emptied_and_printed_without_map")
+		return
+	}
 	k := orcParseKey(s.Call.Key)
 	if k.Err != nil || k.Odd != "" {
 		res.Inc("skipped_key_outside_domain")
@@ -165,7 +169,10 @@ func c40Judge(s *orcStep, res *run.Result, p c40Pred) {
 	} else if ei := pre.findEdge(k); ei >= 0 && (pre.Objs[pre.Edges[ei].Src].Foreign || pre.Objs[pre.Edges[ei].Dst].Foreign) {
 		tcls = "imported-endpoint"
 	}
-	trig := variant + ":" + tcls + ":" + orcWhere(s)
+	trig := variant
+	if tcls == "imported" || tcls == "imported-endpoint" {
+		trig += ":imported"
+	}
 	reported := false
 	showDeltas := func() string {
 		var ks []string
@@ -190,6 +197,53 @@ func c40Judge(s *orcStep, res *run.Result, p c40Pred) {
 		reported = true
 		orcViol(res, "C40."+clause, "C40."+clause+":"+what+":"+trig, msg+"\npredicted deltas:\n"+showDeltas()+s.describe())
 	}
+	// Rename, Move and Reconnect never remove anything, and Delete removes only its target
+	// and the connections attached to it: any other disappearance is the edit's own defect
+	// (C38/C39 report it) and is not held against the prediction.
+	legit := map[string]bool{}
+	if kind == "delete" && !k.Edge && len(k.Attr) == 0 {
+		if t := pre.findObj(k.Obj); t >= 0 {
+			legit[pre.Objs[t].AbsID] = true
+			for _, e := range pre.Edges {
+				if e.Src == t || e.Dst == t {
+					legit[e.AbsID] = true
+				}
+			}
+		}
+	} else if kind == "delete" && k.Edge && len(k.EdgeAttr) == 0 {
+		if t := pre.findEdge(k); t >= 0 {
+			legit[pre.Edges[t].AbsID] = true
+		}
+	}
+	// The prediction is only compared with a sane edit: when the edit itself loses elements
+	// it may not lose (C38/C39 report that), IDs after the edit say nothing about the
+	// prediction.
+	for _, po := range pre.Objs {
+		if po.Tag != "" && !legit[po.AbsID] {
+			if _, ok := post.objByTag[po.Tag]; !ok {
+				res.Inc("skipped_edit_itself_lost_elements_see_C38_C39")
+				return
+			}
+		}
+	}
+	for _, pe := range pre.Edges {
+		if pe.Tag != "" && !legit[pe.AbsID] {
+			if _, ok := post.edgeByTag[pe.Tag]; !ok {
+				res.Inc("skipped_edit_itself_lost_elements_see_C38_C39")
+				return
+			}
+		}
+	}
+	if variant == "delete-object" {
+		if t := pre.findObj(k.Obj); t >= 0 && pre.Objs[t].Tag != "" {
+			if _, still := post.objByTag[pre.Objs[t].Tag]; still {
+				// the deleted object's label survived on another object (C38 reports it)
+				res.Inc("skipped_edit_itself_defective_see_C38")
+				return
+			}
+		}
+	}
+	res.Inc("compared_" + strings.ReplaceAll(variant, "-", "_"))
 	removed := map[string]string{} // old AbsID of removed tagged elements -> tag
 	check := func(what, tag, old, now string, survived bool) {
 		if !survived {
@@ -204,7 +258,11 @@ func c40Judge(s *orcStep, res *run.Result, p c40Pred) {
 		if now != old {
 			res.Inc("ids_changed")
 		}
-		if now != want {
+		if now != want && strings.EqualFold(now, want) {
+			// same ID up to letter case: d2 resolves IDs case-insensitively and spells them
+			// like their first reference; counted, not a mismatch
+			res.Inc("ids_equal_up_to_letter_case")
+		} else if now != want {
 			how := "unpredicted-change"
 			if predicted && now == old {
 				how = "predicted-change-did-not-happen"
@@ -241,6 +299,10 @@ func c40Judge(s *orcStep, res *run.Result, p c40Pred) {
 	// no prediction for a removed element — unless the same old ID also belongs to a
 	// survivor (cannot happen: IDs are unique per board)
 	for old, tag := range removed {
+		if !legit[old] {
+			res.Inc("removed_by_defective_edit_not_held_against_prediction")
+			continue
+		}
 		if to, ok := p.deltas[old]; ok {
 			viol("delta-for-removed", "removed-element", fmt.Sprintf("the edit removed %s (%q) but the prediction maps it to %q", tag, old, to))
 		}
